@@ -33,6 +33,9 @@ def sem(exc):
     return exc
 
 
+FRAGMENT_OUTER_STORES = {}     # fragment function name -> names the enclosing repository function assigns outside the lifted statements
+
+
 def _from_code_under_test(e):
     """True when the exception is an outcome of the repository code (or of simulated Python semantics), False when it comes
     from harness / engine code (then it is an engine error: undecided, never a verdict)."""
@@ -45,6 +48,12 @@ def _from_code_under_test(e):
     if not tb:
         return False
     fn = tb[-1].filename
+    _m = re.search(r"variable '(\w+)'|name '(\w+)'", str(e)) if isinstance(e, NameError) else None
+    _name = getattr(e, "name", None) or (_m and (_m.group(1) or _m.group(2)))
+    if isinstance(e, NameError) and _name in FRAGMENT_OUTER_STORES.get(tb[-1].name, ()):
+        # the lifted statements read a local that the enclosing function initialises *outside* them (the initialisation has moved): the fragment's own
+        # UnboundLocalError says nothing about the code - the contract's binding is stale
+        return False
     return fn.startswith("<code_data") or "/code_data/" in fn
 
 
